@@ -402,14 +402,12 @@ structure EqOracle where
   peq      : Nat → Nat → Nat → PrimRes
   /-- `re.compile(r, fl) == re.compile(r', fl')` -/
   patEq    : Nat → Nat → Nat → Nat → PrimRes
-  /-- `re.compile(r, fl) is re.compile(r', fl')` while re's cache keeps both -/
-  patSame  : Nat → Nat → Nat → Nat → Bool
+  /-- `hash(re.compile(r, fl)) == hash(re.compile(r', fl'))` -/
+  patHashEq : Nat → Nat → Nat → Nat → Bool
   /-- `hash(p)`: `t` works, `exc k` raises -/
   phash    : Nat → Nat → PrimRes
   /-- `hash(p) == hash(p')` -/
   phashEq  : Nat → Nat → Nat → Bool
-  /-- re's cache was purged between the two constructions -/
-  purge    : Bool
 
 /-- Python's `a and b` on truth values with exceptions -/
 def pand (a b : PrimRes) : PrimRes :=
@@ -430,8 +428,8 @@ def veq (eo : EqOracle) : V → V → PrimRes
   | .matchesRe r fl fn, w =>
       (match w with
        | .matchesRe r' fl' fn' =>
-         pand (eo.patEq r fl r' fl')
-           (PrimRes.ofBool (!eo.purge && eo.patSame r fl r' fl' && effFunc fn == effFunc fn'))
+         -- `match_func` is compared (and hashed) by the method's name: fullmatch / search / match
+         pand (eo.patEq r fl r' fl') (PrimRes.ofBool (effFunc fn == effFunc fn'))
        | _ => .f)
   | .optional v, w => (match w with | .optional v' => veq eo v v' | _ => .f)
   | .in_ p, w => (match w with | .in_ p' => pand (eo.peq 2 p p') (eo.peq 1 p p') | _ => .f)
@@ -513,7 +511,7 @@ def vhashEq (eo : EqOracle) : V → V → Bool
   | .instOf t, w => (match w with | .instOf t' => eo.phashEq 0 t t' | _ => false)
   | .matchesRe r fl fn, w =>
       (match w with
-       | .matchesRe r' fl' fn' => !eo.purge && eo.patSame r fl r' fl' && effFunc fn == effFunc fn'
+       | .matchesRe r' fl' fn' => eo.patHashEq r fl r' fl' && effFunc fn == effFunc fn'
        | _ => false)
   | .optional v, w => (match w with | .optional v' => vhashEq eo v v' | _ => false)
   | .in_ p, w => (match w with | .in_ p' => eo.phashEq 2 p p' | _ => false)
@@ -568,6 +566,8 @@ structure Case where
   tree  : V
   /-- a second expression, compared with the first by `==` / `hash` -/
   tree2 : V
+  /-- the harness purges re's compile cache between the two constructions, so that equal regexes compile
+      to distinct pattern objects (nothing in the model depends on it: `C18_purge_irrelevant`) -/
   purge : Bool
   vals  : List VRow
   prim  : List Row
@@ -601,10 +601,9 @@ def Case.buildOracle (c : Case) : BuildOracle where
 def Case.eqOracle (c : Case) : EqOracle where
   peq s p p' := lookup c.prim [10, s, p, p']
   patEq r fl r' fl' := lookup c.prim [11, r, fl, r', fl']
-  patSame r fl r' fl' := lookup c.prim [12, r, fl, r', fl'] == .t
+  patHashEq r fl r' fl' := lookup c.prim [15, r, fl, r', fl'] == .t
   phash s p := lookup c.prim [13, s, p]
   phashEq s p p' := lookup c.prim [14, s, p, p'] == .t
-  purge := c.purge
 
 structure Obs where
   /-- exception raised while constructing the first validator -/
